@@ -729,6 +729,9 @@ LAYOUT_HAND.append(
      {'globals': [('b1', 'struct { long a; char c; }', None), ('b2', 'struct { double d; }', None), ('b3', 'union { int i; long l; }', None), ('b4', 'struct { long s; short t; }', None)]}))
 
 HAND = [
+    'void g(int n, int (*a)[n]); void g2(int n, int m, int a[n][m], int (*b)[m][n]); long d(int n, int (*a)[n]) { return sizeof *a; }\nlong h(void *q, int (*r)[3]) { g(3, q); g(3, r); g2(2, 3, q, q); return d(4, q) + d(3, r); }\n',
+    # variable length arrays whose elements have size zero (GNU zero-length arrays): every operand present
+    'struct S { int x[0]; }; typedef int Z[0]; int f(int n) { struct S a[n]; Z b[n]; Z c[n][2]; struct S d[2][n]; return sizeof a + sizeof b + sizeof c + sizeof d; }\n',
     '_Noreturn void ab(void); int f(int c){ return c ? 1 : (ab(), 2); }\nint g(int c){ return c ? (ab(), 1) : 2; }\nint h(int c) { return c && (ab(), 1); }\nint k(int c) { return c || (ab(), 0); }\n',
     '_Noreturn void ab(void); int f(int c, int d){ return c ? d ? 1 : (ab(), 2) : (ab(), 3); }\nvoid g(int c) { c ? ab() : ab(); }\n',
     'int f(int y){ return 0; 0 || y; }\n',
@@ -799,6 +802,12 @@ HAND += ['void main(void) { }\n', 'void main(int c, char **v) { while (c) { brea
 HAND += ['int f(int y){ if (y) goto %s; return 1; %s_: return 2; }\n' % (n, n) for n in
          ('out', 'done', 'fail', 'retry', 'cleanup', 'err', 'end', 'L1', 'again', 'next', 'l', 'x', 'error', 'exit_', 'bad', 'loop', 'top', 'skip', 'finish', 'unwind')]
 HAND += ['int f(int y){ a: if (y) goto b; c: if (y > 1) goto %s; d: return 1; b: goto c; e: goto a; }\n' % n for n in ('g', 'h', 'out', 'zz', 'lbl9', 'stop')]
+
+# address constants the folder cannot bring into the form `symbol + offset` (invalid or unsupported): either rejected or,
+# if accepted, printed in the data grammar (`$sym + N` only)
+HAND += ['int table[8]; int *base1 = table - 1;\n', 'int table[8]; long l = (long)table - 8;\n', 'int table[8]; int *p = &table[0] - 2;\n', 'char *s = "abc" - 1;\n',
+         'int x; long d = (long)&x * 2;\n', 'int x, y; long d = &x - &y;\n', 'int table[8]; int *q = 2 + table - 1;\n', 'int table[8]; int *q = &table[3] - 1 - 1;\n',
+         'struct s { int a, b; } v; int *q = &v.b - 1;\n', 'void f(void); void (*pf)(void) = f - 1;\n', 'int x; long d = -(long)&x;\n', 'int x; int *p = &x - (1 - 2);\n']
 
 
 def replay(ctx, path):
